@@ -246,26 +246,63 @@ func (e *Exec) zeroOrOpaque(t types.Type) Val {
 	return e.zero(t)
 }
 
-// params subspace: one lazily havocked ParamSet per module, kept in the pseudo store "params/<module>"
+// params subspace: parameters live in the pseudo store "params/<module>", one entry per parameter, keyed by the
+// parameter's key bytes. Convention used (holds for the comdex modules): the key of a parameter is the name of its
+// struct field. Unset parameters are lazily havocked like any other pre-state record.
 func (e *Exec) subspace(s *State, f *Frame, x *ssa.Call, method string, args []Val) ([]*State, bool) {
 	sub := args[0].(OpaqueV)
 	mod := strings.TrimPrefix(sub.What, "subspace:")
+	name := "params/" + mod
+	fieldKey := func(n string) BytesV { return BytesV{Segs: []Seg{{Kind: "c", B: []byte(n)}}} }
 	switch method {
 	case "GetParamSet", "GetParamSetIfExists":
 		cid := args[1].(CtxV).ID
 		iv := args[2].(IfaceV)
 		p := iv.V.(Ptr)
-		want := iv.T.(*types.Pointer).Elem()
-		g := e.storeGet(s, StoreV{Name: "params/" + mod, Ctx: cid}, BytesV{Segs: []Seg{{Kind: "c", B: []byte("params")}}})
-		e.store(s, p, e.unmarshalGet(s, g, want))
+		st, ok := iv.T.(*types.Pointer).Elem().Underlying().(*types.Struct)
+		if !ok {
+			panic("GetParamSet into a non-struct")
+		}
+		cur := e.load(s, p).(StructV)
+		nf := append([]Val{}, cur.F...)
+		for i := 0; i < st.NumFields(); i++ {
+			g := e.storeGet(s, StoreV{Name: name, Ctx: cid}, fieldKey(st.Field(i).Name()))
+			nf[i] = e.unmarshalGet(s, g, st.Field(i).Type())
+		}
+		e.store(s, p, StructV{nf})
 	case "SetParamSet":
 		cid := args[1].(CtxV).ID
 		iv := args[2].(IfaceV)
 		p := iv.V.(Ptr)
+		st := iv.T.(*types.Pointer).Elem().Underlying().(*types.Struct)
+		cur := e.load(s, p).(StructV)
 		env := s.env()
-		name := "params/" + mod
-		env.L[cid].Stores[name] = append(env.L[cid].Stores[name], StoreEntry{Key: BytesV{Segs: []Seg{{Kind: "c", B: []byte("params")}}}, Present: "true",
-			Val: MarshaledV{T: iv.T.(*types.Pointer).Elem(), V: e.load(s, p)}})
+		for i := 0; i < st.NumFields(); i++ {
+			env.L[cid].Stores[name] = append(env.L[cid].Stores[name], StoreEntry{Key: fieldKey(st.Field(i).Name()), Present: "true", Val: MarshaledV{T: st.Field(i).Type(), V: cur.F[i]}})
+		}
+	case "Get", "GetIfExists":
+		cid := args[1].(CtxV).ID
+		key := e.toBytesV(s, args[2])
+		iv := args[3].(IfaceV)
+		p := iv.V.(Ptr)
+		g := e.storeGet(s, StoreV{Name: name, Ctx: cid}, key)
+		e.store(s, p, e.unmarshalGet(s, g, iv.T.(*types.Pointer).Elem()))
+	case "Set":
+		cid := args[1].(CtxV).ID
+		key := e.toBytesV(s, args[2])
+		iv := args[3].(IfaceV)
+		var v Val = iv.V
+		t := iv.T
+		if pt, ok := iv.T.(*types.Pointer); ok {
+			v = e.load(s, iv.V.(Ptr))
+			t = pt.Elem()
+		}
+		env := s.env()
+		env.L[cid].Stores[name] = append(env.L[cid].Stores[name], StoreEntry{Key: key, Present: "true", Val: MarshaledV{T: t, V: v}})
+	case "Has":
+		cid := args[1].(CtxV).ID
+		g := e.storeGet(s, StoreV{Name: name, Ctx: cid}, e.toBytesV(s, args[2]))
+		f.Regs[x] = Sym{Bool: true, S: g.presentTerm()}
 	case "HasKeyTable":
 		f.Regs[x] = boolc(true)
 	case "WithKeyTable":
